@@ -219,11 +219,22 @@ def readers(ctx):
     mut.const('scripts', 'Script.parse_bytesio', 'little', 'big', 'script reader: pushdata2 length big-endian', nth=1),
     mut.const('scripts', 'Script.parse_bytesio', 75, 76, 'script reader: direct push range 1..76', nth=0),
     mut.insert_before('scripts', 'data_pack', 'if len(data) <= 75:', "if not data:\n    return b''", 'empty push dropped'),
+    mut.insert_before('scripts', 'Script.parse_bytesio', 'data = script.read(data_length)', "if data_length > 520 and strict:\n    raise ScriptError('too long')", 'parser refuses pushes above 520 bytes'),
 ])
 def pushdata(ctx):
     """data_pack: <=75 direct, 76..255 4c+1 byte, 256..65535 4d+LE2; Script.parse_bytesio reads 1..75 direct,
-    4c + 1 byte, 4d + 2 bytes little-endian (same table)."""
+    4c + 1 byte, 4d + 2 bytes little-endian (same table) and accepts every push length the encodings can carry: no refusal decided by
+    comparing the decoded length with a constant (the 520-byte element limit is an execution rule, not a wire rule)."""
     repo = ctx.repo
+    pf = repo.func('scripts:Script.parse_bytesio')
+    for n_ in ast.walk(pf):
+        if isinstance(n_, ast.If) and any(isinstance(x, ast.Raise) for x in n_.body):
+            for c_ in ast.walk(n_.test):
+                if isinstance(c_, ast.Compare) and len(c_.ops) == 1 and isinstance(c_.ops[0], (ast.Gt, ast.GtE, ast.Lt, ast.LtE)):
+                    sides = [c_.left, c_.comparators[0]]
+                    if any(isinstance(x, ast.Name) and x.id == 'data_length' for x in sides) and any(isinstance(x, ast.Constant) and isinstance(x.value, int) for x in sides):
+                        ctx.violate('scripts:Script.parse_bytesio', 'a data push is refused when `%s`: PUSHDATA1 / PUSHDATA2 carry up to 255 / 65535 bytes and data_pack / serialize emit them' % norm(c_), n_,
+                                    'the library cannot parse a script it serialised itself (any item of 521..65535 bytes)')
     q = 'scripts:data_pack'
     fn = repo.func(q)
     it = Interp(repo, 'scripts')
